@@ -29,7 +29,9 @@ ASSUMPTIONS = ['the model of the final result: a value returned on the endpoint 
 
 ACCEPTS = [None, 'text/html', 'application/json', 'application/xml;q=0.9, */*;q=0.1']
 HANDLERS = ['default', 'debug', 'reraise', 'broken_render', 'other_error', 'broken_render_cls',
-            'mixed_plain_ctxerr', 'mixed_ctx_plaininfo']
+            'mixed_plain_ctxerr', 'mixed_ctx_plaininfo', 'other_error_kwonly']
+# other_error_kwonly: the same handler as other_error, its render_error takes what it is given as keyword-only
+# parameters - the two must answer every request alike
 
 
 def deadline_passed():
@@ -129,7 +131,7 @@ class App(object):
     """One application per handler kind; behaviour and position are selected per request."""
 
     def __init__(self, handler):
-        from clastic import Application, Middleware, Route, GET, POST
+        from clastic import Application, Middleware, Route, GET, POST, render_json
         from clastic import errors
         from werkzeug.wrappers import Response
         self.errors = errors
@@ -192,6 +194,11 @@ class App(object):
                 def render_error(self, request, _error):
                     return errors.Forbidden('instead of %s' % _error.code)
             kw['error_handler'] = Other()
+        elif handler == 'other_error_kwonly':
+            class OtherKw(errors.ErrorHandler):
+                def render_error(self, *, request, _error):
+                    return errors.Forbidden('instead of %s' % _error.code)
+            kw['error_handler'] = OtherKw()
         elif handler == 'mixed_plain_ctxerr':
             # documented class attributes combined by hand: plain handler, contextual 500 type
             class MixedA(errors.ErrorHandler):
@@ -223,7 +230,9 @@ class App(object):
             return Response('n %r' % (n,))
         self.app = AppType([Route('/r', ep_ctx, rn), Route('/n', ep_resp), GET('/item', ep_resp),
                             POST('/item', lambda: Response('posted')), Route('/sum/<nums+int>', ep_nums),
-                            Route('/num/<n:int>', ep_n), Route('/flt/<n?float>/x', ep_n), Route('/br/', ep_resp)],
+                            Route('/num/<n:int>', ep_n), Route('/flt/<n?float>/x', ep_n), Route('/br/', ep_resp),
+                            Route('/jsonbad', lambda: {'o': object(), 'g': (x for x in [1])}, render_json),
+                            Route('/jsonbad2', lambda: {1: object()}, render_json)],
                            middlewares=[mk(0), mk(1), mk(2)], **kw)
 
     def act(self, where):
@@ -266,16 +275,16 @@ def expected(beh, bclass, where, route, handler):
             return ('status', 200)          # becomes the render context
         if handler == 'reraise':
             return ('escape-typeerror',)
-        return ('status-in', (500, 403)) if handler == 'other_error' else ('status', 500)
+        return ('status-in', (500, 403)) if handler.startswith('other_error') else ('status', 500)
     if beh[0] == 'raise':
         if handler == 'reraise':
             return ('escape',)
-        return ('status-in', (500, 403)) if handler == 'other_error' else ('status', 500)
+        return ('status-in', (500, 403)) if handler.startswith('other_error') else ('status', 500)
     if beh[0] == 'http':
         code = getattr(__import__('clastic.errors', fromlist=['x']), beh[1]).code
         if side == 'render' and beh[2] == 'return':
             pass
-        if handler == 'other_error':
+        if handler.startswith('other_error'):
             return ('status-in', (code, 403))
         return ('status', code)
     raise AssertionError(beh)
@@ -335,6 +344,14 @@ def check_one(acc, A, handler, beh, bclass, where, route, accept):
     cl = res.header('Content-Length')
     if cl is not None and int(cl) != len(res.body):
         bad('content-length', 'Content-Length %s but %d body bytes' % (cl, len(res.body)))
+    if handler == 'other_error_kwonly':
+        twin = A.twin
+        twin.ctl.where, twin.ctl.beh, twin.ctl.raised, twin.ctl.fired = where, beh, None, False
+        res2 = wsgi.call(twin.app, route, 'GET', headers=hdrs)
+        twin.ctl.beh = None
+        acc.transitions += 1
+        if res2.code != res.code:
+            bad('kwonly-handler-differs', 'the same handler with a positional signature answers %s' % res2.status)
 
 
 # ---- layer B: histories --------------------------------------------------------------------------
@@ -442,6 +459,8 @@ def shard(tier, i, n, seed):
             return acc
         if handler not in apps:
             apps[handler] = App(handler)
+            if handler == 'other_error_kwonly':
+                apps[handler].twin = App('other_error')
         A = apps[handler]
         for beh, bclass in behs:
             accepts = ACCEPTS if (bclass != 'exc' or beh[2] in ('ascii', 'markup', 'surrogate') or handler != 'debug') else ACCEPTS[:2]
@@ -462,6 +481,7 @@ def shard(tier, i, n, seed):
                                ('GET', '/num/+ 1', 404), ('GET', '/flt/1e400/x', (200, 404)), ('GET', '/flt//x', (200, 404)),
                                ('GET', '/num/\u0661', (200, 404)),
                                # a slash redirect whose query string is raw bytes no charset decodes
+                               ('GET', '/jsonbad', 500), ('HEAD', '/jsonbad', 500), ('GET', '/jsonbad2', 500),
                                ('GET', ('/br', 'name=caf\xe9'), (301, 302, 307, 308)), ('POST', ('/br//', '\xff\xfe=\x80'), (301, 302, 307, 308)),
                                ('HEAD', ('/br', '%'), (301, 302, 307, 308)), ('GET', ('/br/', 'name=caf\xe9'), 200)):
                 A.ctl.beh = None
@@ -475,7 +495,9 @@ def shard(tier, i, n, seed):
                 if isinstance(want, int):
                     want = (want,)
                 acc.outcome('builtin-%s|%s' % (want[0], handler))
-                want_codes = want + (403,) if handler == 'other_error' else want
+                want_codes = want + (403,) if handler.startswith('other_error') else want
+                if handler == 'reraise' and 500 in want and res.raised is not None and res.sr_calls == 0:
+                    continue       # the re-raising handler hands the uncaught exception to the server, before any output
                 if res.raised is not None or res.code not in want_codes or res.sr_calls != 1:
                     acc.violation('C08:builtin-%s:%s' % (want[0], handler), '%s %s under handler %s gave %r raised=%r'
                                   % (m, p, handler, res.status, res.raised), {'handler': handler, 'path': p, 'method': m, 'query': q})
@@ -514,6 +536,8 @@ def replay(case):
         res = wsgi.call(A.app, case['path'], case['method'], query=case.get('query', ''))
         return (res.raised is None), 'status %r raised %r' % (res.status, res.raised)
     A = App(case['handler'])
+    if case['handler'] == 'other_error_kwonly':
+        A.twin = App('other_error')
     beh = tuple(case['behaviour'])
     bclass = {'return': 'nonresp', 'raise': 'exc', 'http': 'http'}[beh[0]]
     if beh == ('return', 'response'):
